@@ -369,6 +369,10 @@ impl Config {
         self.sync_port = args.sync_port;
         self.leader_address = args.leader_address.clone();
         self.instance_name = args.instance_name.clone();
+        // the environment was evaluated before the role flags were known
+        if self.follower || self.leader {
+            self.use_persistence = true;
+        }
     }
 
     pub fn persistence_interval(&self) -> Interval {
